@@ -91,6 +91,8 @@ def generate(G):
     form("ref_2x3_2x3", MM % ("false", "false", "false"), [U([2, 3]), U([2, 3])], "quick", "inner 3 vs 2 (needs bt)", kind="refusal")
     form("ref_2x2_3x2_at", MM % ("true", "false", "false"), [U([2, 2]), U([3, 2])], "thorough", "at: inner 2 vs 3", kind="refusal")
     form("ref_2x3_vec3", MM % ("false", "false", "false"), [U([2, 3]), U([3])], "thorough", "[2,3] x one-row [1,3]: inner 3 vs 1", kind="refusal")
+    form("ref_2x3_vec4_bt", MM % ("false", "true", "false"), [U([2, 3]), U([4])], "quick", "[2,3] x [4]^T: inner 3 vs 4", kind="refusal")
+    form("ref_2x3_vec2_bt", MM % ("false", "true", "false"), [U([2, 3]), U([2])], "thorough", "[2,3] x [2]^T: inner 3 vs 2", kind="refusal")
     form("ref_dot_3_4", MM % ("false", "false", "false"), [U([3]), U([4])], "quick", "dot product of vectors of different lengths (shorter on the left)", kind="refusal")
     form("ref_dot_4_3", MM % ("false", "false", "false"), [U([4]), U([3])], "thorough", "dot product of vectors of different lengths (longer on the left)", kind="refusal")
     form("ref_2x2_vec2", MM % ("false", "false", "false"), [U([2, 2]), U([2])], "thorough", "[2,2] x one-row [1,2]: inner 2 vs 1", kind="refusal")
